@@ -100,6 +100,11 @@ def treeStep (c : TreeCfg) (s : TreeS) (op : String) (args : List Int) : Option 
     match fillCount c lim.toNat m base 0 with
     | .ok n => some (m, toString n)
     | .error e => some (m, faultStr e)
+  | "initfill", [cap, base, lim] =>
+    -- probe on a private copy through ONE handle: `initialize(cap)` (cap may be below the record count), then fill
+    match fillCount c lim.toNat (Tree.init s.slots cap.toNat) base 0 with
+    | .ok n => some (s, toString n)
+    | .error e => some (s, faultStr e)
   | _, _ => none
 
 /-- Keys the operation compares the sought key with (for the C06 trace tie). -/
